@@ -32,8 +32,8 @@ const leaseTime = time.Hour
 
 // Sys is one DHCPv4 server configuration under exploration.
 type Sys struct {
-	FastPath bool      // with real kernel maps behind the loader and the native XDP program (C03)
-	Sweep    bool      // additionally sweep all IP identification values through the fast path in every state
+	FastPath bool // with real kernel maps behind the loader and the native XDP program (C03)
+	Sweep    bool // additionally sweep all IP identification values through the fast path in every state
 	fpProbes []FPProbe
 	Variant  string // "direct" | "relay"
 	NClients int
@@ -56,6 +56,10 @@ func NewSys(variant string, nclients int, cidr string, nunits int, reqUnits []in
 			// client unicasts to the server itself, i.e. without relay fields
 			s.events = append(s.events, core.Event{"op": "DISCALT", "c": c, "u": -1}, core.Event{"op": "REQSELALT", "c": c, "u": -1},
 				core.Event{"op": "RELDIRECT", "c": c, "u": -1})
+		}
+		if variant == "relay" {
+			// a renewal through a relay agent that inserts only a remote-id sub-option
+			s.events = append(s.events, core.Event{"op": "REQOWN", "c": c, "u": -1, "rid": 1})
 		}
 		for _, u := range reqUnits {
 			if u >= 2 && u <= 3 {
@@ -159,11 +163,12 @@ type inst struct {
 	xid       uint32
 	start     time.Time
 	// history digest that only refines node identity (never an oracle)
-	offAge map[string]int
-	decl   map[string]bool
-	fp     *fpState
-	ackAlt map[int]bool // the client's current lease was ACKed to its second device
-	direct bool         // build the next message without relay fields
+	offAge  map[string]int
+	decl    map[string]bool
+	fp      *fpState
+	ackAlt  map[int]bool // the client's current lease was ACKed to its second device
+	direct  bool         // build the next message without relay fields
+	ridOnly bool         // build the next message with an option 82 that has no circuit-id
 }
 
 func (s *Sys) New() core.Instance {
@@ -212,7 +217,11 @@ func (in *inst) build(c int, alt bool, mt dhcpv4.MessageType, reqIP net.IP, ciad
 	if in.s.Variant == "relay" && !in.direct {
 		mods = append(mods, dhcpv4.WithGatewayIP(net.IPv4(10, 9, 9, 1)))
 		cid := []byte(fmt.Sprintf("cid-%d", c))
-		mods = append(mods, dhcpv4.WithOption(dhcpv4.OptRelayAgentInfo(dhcpv4.OptGeneric(dhcpv4.GenericOptionCode(1), cid))))
+		if in.ridOnly {
+			mods = append(mods, dhcpv4.WithOption(dhcpv4.OptRelayAgentInfo(dhcpv4.OptGeneric(dhcpv4.GenericOptionCode(2), []byte("agent-7")))))
+		} else {
+			mods = append(mods, dhcpv4.WithOption(dhcpv4.OptRelayAgentInfo(dhcpv4.OptGeneric(dhcpv4.GenericOptionCode(1), cid))))
+		}
 	}
 	m, err := dhcpv4.New(mods...)
 	if err != nil {
@@ -273,7 +282,9 @@ func (in *inst) Apply(ev core.Event) map[string]any {
 		if !ok || o < 0 {
 			return out("none", -1, -1, true)
 		}
+		in.ridOnly = toInt(ev["rid"]) == 1
 		rt, ru := in.send(in.build(c, in.ackAlt[c], dhcpv4.MessageTypeRequest, nil, s.unitIP(o)))
+		in.ridOnly = false
 		in.noteAck(c, rt, ru)
 		return out(rt, ru, o, false)
 	case "REQ": // INIT-REBOOT style request for an arbitrary address
